@@ -22,4 +22,5 @@ func init() {
 	registry["C19"] = &propSpec{Rules: []ruleFn{ruleC19Promote("C19-PROMOTE")}, Explanation: "tbd", NotDecided: "tbd"}
 	registry["C14"] = &propSpec{Rules: []ruleFn{ruleC14Lock}, Explanation: "tbd", NotDecided: "tbd"}
 	registry["C06"] = &propSpec{Rules: []ruleFn{ruleC06Hole, ruleC06Snapstep}, Explanation: "tbd", NotDecided: "tbd"}
+	registry["C08"] = &propSpec{Rules: []ruleFn{ruleC08Atomic, ruleC08Err, ruleC08Commit, ruleC08Dur}, Explanation: "tbd", NotDecided: "tbd"}
 }
